@@ -55,5 +55,12 @@ CLAIMED["C20"] = dict(
     technique="TLA+ reference codec + message-shape lattice checked by TLC; enumerated vectors through the real codecs and pb/JSON converters; TLC-evaluated monitors on recorded outputs",
 )
 
+CLAIMED["C16"] = dict(
+    category="model_checking",
+    text="TLC exhausts the Files model (uploads/links/disk/GC: gate over every method x key class/placement x credential class/placement x size x sign-up flag; content kinds x URL shapes x injected failures; upload/link/delete/GC life cycles for <=3 uploads, 2 messages, 2 topics, 2 users) against the property clauses, generates as-built histories, and the Go recorder drives the REAL largeFileReceive/largeFileServe (httptest, real fs media handler on a scratch directory, real checkAPIKey with keygen keys, real authenticators, memadp) over the same domains and the generated histories (link calls through the real store mapper, GC through store.Files.DeleteUnused with a controlled clock); TLC evaluates the clauses on every recorded step (HTTP status/headers/body hash, file rows, links, directory listing) and the conformance with the model.",
+    note="Trusted: which uploads FileDeleteUnused selects and the link cascades on message/topic/user deletion are memadp's reading of the adapter contract (no SQL executed); call sites of the link functions in topic.go/init_topic.go/user.go are not driven (the mapper functions are called with the same arguments); S3 handler, Range/conditional requests and cluster setups are not exercised.",
+    technique="TLA+ Files model checked by TLC; enumerated requests + TLC-generated histories against the real HTTP handlers; TLC-evaluated clauses + model conformance on recorded steps",
+)
+
 _ALL = ["C%02d" % i for i in range(1, 21)]
 NOT_APPLICABLE = {p: "check not built yet in this round (work in progress; the technique applies, see DESIGN.md §5)" for p in _ALL if p not in CLAIMED}
